@@ -11,13 +11,22 @@ Context (cs : amap pconf).
 Lemma Rt_step_stop s o th e s' : Rt s o -> ev_facts o e -> (forall j, has_inst s j -> has_inst s' j) ->
   step_stop s th e = Some s' -> Rt s' o.
 Proof.
-  intros HRt Hev Hh H. pose proof HRt as [H1 Ha Hb H2 H3 H4 H5 H6].
-  destruct e; kind_cases H; cbn in Hev; split_andb; subst; rt_pre; rt_direct H1 Ha Hb H2 H3 H4 H5 H6 Hh.
+  intros HRt Hev Hh H. pose proof HRt as [H1 Ha Hb H2 H3 H4 He H5 H6].
+  destruct e; kind_cases H; cbn in Hev; split_andb; subst; rt_pre; rt_direct H1 Ha Hb H2 H3 H4 He H5 H6 Hh.
+  - subst cancel. intros [= <- <-].
+    destruct (spc (get_thread s th)) eqn:Es; try discriminate.
+    + destruct (dpc (get_thread s th)) eqn:Ed; try discriminate. destruct rest; try discriminate. split_andb. subst.
+      eapply H3; [exact Ed|]. rewrite memN_cons, N.eqb_refl. reflexivity.
+    + split_andb. subst. exact (H4 _ _ _ Es).
   - subst cancel. split; [|discriminate]. intros [= <-].
     destruct (spc (get_thread s th)) eqn:Es; try discriminate.
     + destruct (dpc (get_thread s th)) eqn:Ed; try discriminate. destruct rest; try discriminate. split_andb. subst.
       eapply H3; [exact Ed|]. rewrite memN_cons, N.eqb_refl. reflexivity.
-    + split_andb. subst. eapply H4; eauto.
+    + split_andb. subst. exact (H4 _ _ _ Es).
+  - subst cancel. intros [= <- <-].
+    destruct (spc (get_thread s th)) eqn:Es; try discriminate.
+    + destruct (dpc (get_thread s th)) eqn:Ed; try discriminate. destruct rest; try discriminate. split_andb. discriminate.
+    + split_andb. subst. exact (H4 _ _ _ Es).
   - intros [= <-]. exact Hev.
   - intros [= <- <-] Hm. eapply H3; [eassumption|]. rewrite memN_cons, Hm. apply orb_true_r.
   - intros [= <- <-] Hm. eapply H3; [eassumption|]. rewrite memN_cons, Hm. apply orb_true_r.
@@ -27,10 +36,10 @@ Qed.
 Lemma Rt_step_api s o th e s' : Rt s o -> ev_facts o e -> (forall j, has_inst s j -> has_inst s' j) ->
   step_api s th e = Some s' -> Rt s' o.
 Proof.
-  intros HRt Hev Hh H. pose proof HRt as [H1 Ha Hb H2 H3 H4 H5 H6].
-  destruct e; kind_cases H; cbn in Hev; split_andb; subst; rt_pre; rt_direct H1 Ha Hb H2 H3 H4 H5 H6 Hh.
-  - intros [= <-]. exact Hev.
-  - intros [= <-]. exact Hev.
+  intros HRt Hev Hh H. pose proof HRt as [H1 Ha Hb H2 H3 H4 He H5 H6].
+  destruct e; kind_cases H; cbn in Hev; split_andb; subst; rt_pre; rt_direct H1 Ha Hb H2 H3 H4 He H5 H6 Hh.
+  - intros [= <- <-]. exact Hev.
+  - intros [= <- <-]. exact Hev.
   - destruct found as [i9|]; (intros [Hq|[n9 Hq]]; try discriminate Hq). injection Hq as <-.
     eapply (thread_reg_some (has_inst s)); [apply Ha|exact H0].
   - destruct found as [i9|]; (intros [Hq|[n9 Hq]]; try discriminate Hq). injection Hq as <- <-.
